@@ -1,12 +1,13 @@
 """Registry: which engines decide which property, and how violations are attributed."""
 
 PROPS = {
-    "C01": dict(engines=["sync"], design="5/C01",
+    "C01": dict(engines=["sync", "atopo"], design="5/C01",
                 technique="TLA+ spec SyncFlow (TLC exhaustive over program catalogue) + trace validation of the real node classes against it",
                 text="TLC checks the list-level contracts (NodeContracts, EdgeExact, SiblingOrder) on SyncFlow.tla for every "
                      "catalogue program x every input sequence (bounded); every public call of thousands of real-code runs is "
                      "validated against the same specification (deliveries, emissions, node state, links) and the contracts are "
-                     "evaluated in every state of every recorded trace.",
+                     "evaluated in every state of every recorded trace.  Pipelines that are still being put together while data flows "
+                     "(branches attached / detached between emissions) are covered by the emissions of the Topology traces.",
                 note="Trusted: TLC; the encoding/projection functions in harness/build.py; programs limited to the catalogue "
                      "(chains <= 3 nodes, join/fan-out/feedback templates), values 0..2, <= 8 calls per trace."),
     "C10": dict(engines=["sync", "abuffer", "atwindow", "apartition", "aemit", "azip", "amapasync"], design="5/C10",
